@@ -222,7 +222,7 @@ def run(ctx: vlib.Ctx):
                 w = enc.encode(v)
             except Exception:
                 continue
-            inputs = [w] + [tycorr.corrupt(w, ctx.rng) for _ in range(3)]
+            inputs = [w] + [tycorr.corrupt(w, ctx.rng) for _ in range(3)] + tycorr.null_variants(w, ctx.rng, 3)
             for j, d in enumerate(inputs):
                 probe(ctx, t, fam, ns, dec, d, j > 0)
         fam.dispose()
